@@ -23,9 +23,10 @@ def gen_sql(tier, idx):
     nprior = r.choice([1, 2, 3])
     prior = [(k, r.choice(SQL_VALS)) for k in keys[:nprior]]
     present = [k for k, _ in prior]; absent = keys[nprior:]
-    kind = ['set-over', 'set-new', 'pop', 'update', 'clear', 'delitem'][idx % 6]
+    kind = ['set-big', 'set-over', 'set-new', 'pop', 'update', 'clear', 'delitem'][idx % 7]
     nv = lambda old=None: r.choice([v for v in SQL_VALS if v != old])
-    if kind == 'set-new': op = ['setitem', absent[0], nv()]
+    if kind == 'set-big': op = ['setitem', present[0], 'x' * 20000]     # a value that spills onto overflow pages: a multi-page commit
+    elif kind == 'set-new': op = ['setitem', absent[0], nv()]
     elif kind == 'set-over': k = present[0]; op = ['setitem', k, nv(dict(prior)[k])]
     elif kind == 'pop': op = ['pop', present[0]]
     elif kind == 'delitem': op = ['delitem', present[0]]
